@@ -66,7 +66,12 @@ class Gen:
             elif k < .3:
                 out.append(self.rec())
             elif k < .45 and allow_slot:
-                out.append(('slot', rng.choice(SLOTS), self.items(depth + 1, False, others, tag) if depth < 2 else [('text', 'D')]))
+                body = self.items(depth + 1, False, others, tag) if depth < 2 else [('text', 'D')]
+                if rng.random() < .3:
+                    # tal:define on the define-slot element itself: part of the slot region, i.e. replaced with it
+                    out.append(('slot', rng.choice(SLOTS), body, (rng.choice(['a', 'b']), '%sS%d' % (tag, rng.randint(1, 99)))))
+                else:
+                    out.append(('slot', rng.choice(SLOTS), body))
             elif k < .57 and depth < 2:
                 out.append(('ldef', rng.choice(['a', 'b']), '%s%d' % (tag, rng.randint(1, 99)),
                             self.items(depth + 1, allow_slot, others, tag)))
@@ -102,7 +107,8 @@ def ser_items(items, ref):
         elif k == 'rec':
             out += '${f(%d)}' % it[1]
         elif k == 'slot':
-            out += '<i metal:define-slot="%s">%s</i>' % (it[1], ser_items(it[2], ref))
+            d = ' tal:define="%s \'%s\'"' % it[3] if len(it) > 3 else ''
+            out += '<i metal:define-slot="%s"%s>%s</i>' % (it[1], d, ser_items(it[2], ref))
         elif k == 'ldef':
             out += '<d tal:define="%s \'%s\'">%s</d>' % (it[1], it[2], ser_items(it[3], ref))
         elif k == 'gdef':
@@ -158,7 +164,8 @@ class Inliner:
             elif k == 'rec':
                 out += '${f(%d)}' % it[1]
             elif k == 'slot':
-                out += fillers[it[1]] if fillers.get(it[1]) is not None else '<i>%s</i>' % self.items(it[2], fillers, scope)
+                d = ' tal:define="%s \'%s\'"' % it[3] if len(it) > 3 else ''
+                out += fillers[it[1]] if fillers.get(it[1]) is not None else '<i%s>%s</i>' % (d, self.items(it[2], fillers, scope))
             elif k == 'ldef':
                 out += '<d tal:define="%s \'%s\'">%s</d>' % (it[1], it[2], self.items(it[3], fillers, scope))
             elif k == 'gdef':
